@@ -10,21 +10,27 @@ pub mod std {
     pub mod sync {
         pub use ::std::sync::*;
 
-        // Everything that blocks or synchronises is the engine's model. (A stopped simulated
-        // process is torn down without running destructors - see sched.rs - so the plain
-        // guards are safe.)
-        pub use ::shuttle::sync::{
-            Barrier, BarrierWaitResult, Condvar, Mutex, MutexGuard, Once, OnceState, RwLock, RwLockReadGuard,
-            RwLockWriteGuard, WaitTimeoutResult,
-        };
+        // Everything that blocks or synchronises is the engine's model; whatever can time out
+        // (Condvar, recv_timeout) is built on it in crate::timed so that timeouts read the
+        // virtual clock. (A stopped simulated process is torn down without running
+        // destructors - see sched.rs.)
+        pub use crate::timed::{Condvar, Mutex, MutexGuard, WaitTimeoutResult};
+        pub use ::shuttle::sync::{Barrier, BarrierWaitResult, Once, OnceState, RwLock, RwLockReadGuard, RwLockWriteGuard};
 
         pub mod mpsc {
-            pub use ::shuttle::sync::mpsc::*;
+            pub use crate::timed::mpsc::*;
         }
 
         pub mod atomic {
             pub use ::shuttle::sync::atomic::*;
         }
+    }
+
+    pub mod time {
+        pub use ::std::time::*;
+
+        /// Instant on the virtual clock
+        pub use crate::timed::Instant;
     }
 
     pub mod process {
@@ -81,8 +87,10 @@ pub mod std {
     pub mod thread {
         pub use ::std::thread::*;
 
-        // parking, scoped threads and thread handles are the engine's as well
-        pub use ::shuttle::thread::{current, park, park_timeout, scope, Scope, ScopedJoinHandle, Thread, ThreadId};
+        // parking (with virtual-time timeouts) and thread handles are the simulator's, scoped
+        // threads the engine's
+        pub use crate::timed::{current, park, park_timeout, Thread, ThreadId};
+        pub use ::shuttle::thread::{scope, Scope, ScopedJoinHandle};
 
         use crate::rt::{self, Kind, ThreadRec};
         use ::std::panic::{catch_unwind, resume_unwind, AssertUnwindSafe};
@@ -108,12 +116,17 @@ pub mod std {
             idx
         }
 
-        fn body<F, T>(idx: usize, f: F) -> impl FnOnce() -> ::std::thread::Result<T> + Send + 'static
+        fn body<F, T>(
+            idx: usize,
+            cell: ::std::sync::Arc<::std::sync::atomic::AtomicU32>,
+            f: F,
+        ) -> impl FnOnce() -> ::std::thread::Result<T> + Send + 'static
         where
             F: FnOnce() -> T + Send + 'static,
             T: Send + 'static,
         {
             move || {
+                cell.store(rt::current_task(), ::std::sync::atomic::Ordering::SeqCst);
                 rt::with(|st| st.threads[idx].started = true);
                 rt::log(Kind::ThreadStart, idx as u64, 0);
                 let me = rt::current_task();
@@ -155,7 +168,7 @@ pub mod std {
             }
         }
 
-        pub struct JoinHandle<T>(::shuttle::thread::JoinHandle<::std::thread::Result<T>>);
+        pub struct JoinHandle<T>(::shuttle::thread::JoinHandle<::std::thread::Result<T>>, Thread);
 
         impl<T> JoinHandle<T> {
             pub fn join(self) -> ::std::thread::Result<T> {
@@ -165,7 +178,7 @@ pub mod std {
                 }
             }
             pub fn thread(&self) -> &Thread {
-                self.0.thread()
+                &self.1
             }
         }
 
@@ -181,7 +194,9 @@ pub mod std {
             T: Send + 'static,
         {
             let idx = register(None);
-            JoinHandle(::shuttle::thread::spawn(body(idx, f)))
+            let (t, cell) = Thread::not_started(None);
+            let h = ::shuttle::thread::spawn(body(idx, cell, f));
+            JoinHandle(h, t)
         }
 
         #[derive(Debug, Default)]
@@ -209,10 +224,12 @@ pub mod std {
             {
                 let idx = register(self.name.as_deref());
                 let mut b = ::shuttle::thread::Builder::new();
+                let name = self.name.clone();
                 if let Some(n) = self.name {
                     b = b.name(n);
                 }
-                b.spawn(body(idx, f)).map(JoinHandle)
+                let (t, cell) = Thread::not_started(name);
+                b.spawn(body(idx, cell, f)).map(|h| JoinHandle(h, t))
             }
         }
 
